@@ -1840,9 +1840,11 @@ var c12Idle = func() time.Duration {
 }()
 
 func c12RunAll(c *lib.Ctx, progs []*c12Prog) map[string][][]string {
-	nw := runtime.NumCPU() / 2
-	if nw > 8 {
-		nw = 8
+	// worker processes: the machine's scheduler shares the cores per thread, so on a heavily shared
+	// machine the wall time is inversely proportional to this number; verdicts do not depend on it
+	nw := runtime.NumCPU()
+	if nw > 16 {
+		nw = 16
 	}
 	if nw < 1 {
 		nw = 1
@@ -2313,7 +2315,16 @@ func runC12(c *lib.Ctx) {
 
 	// perm families
 	type fam struct{ n, count int }
-	fams := []fam{{1, c.Scale(4, 12)}, {2, c.Scale(10, 40)}, {3, c.Scale(26, 150)}, {4, c.Scale(20, 120)}, {5, c.Scale(5, 36)}}
+	fams := []fam{{1, c.Scale(4, 8)}, {2, c.Scale(10, 24)}, {3, c.Scale(26, 80)}, {4, c.Scale(20, 60)}, {5, c.Scale(5, 14)}}
+	// VERIF_C12_ONLY_SWEEP=1 (self-test aid): run the seed-independent sweep only. The sweep is part of
+	// every run, so a mutant caught this way is caught by the quick tier for every seed; the run is
+	// marked in the evidence and must never be used for a verdict on the unchanged tree.
+	onlySweep := os.Getenv("VERIF_C12_ONLY_SWEEP") != ""
+	if onlySweep {
+		fmt.Fprintln(os.Stderr, "C12: VERIF_C12_ONLY_SWEEP set: random families skipped (self-test mode)")
+		c.Ev.Coverage["restricted_to_sweep"] = true
+		fams = nil
+	}
 	fi := 0
 	for _, fm := range fams {
 		for k := 0; k < fm.count; k++ {
@@ -2333,8 +2344,8 @@ func runC12(c *lib.Ctx) {
 	}
 	// history families: 4-7 classes, up to three definitions per class, never-defined superclasses;
 	// a few orders of the same forms (all leaving the same definitions in force)
-	nhist := c.Scale(36, 220)
-	for k := 0; k < nhist && !avoidRedef; k++ {
+	nhist := c.Scale(36, 90)
+	for k := 0; k < nhist && !avoidRedef && !onlySweep; k++ {
 		h := c12GenHist(c.Rng, opts)
 		final := c12FinalBlock(c.Rng, h.finalConfig())
 		for v := 0; v < c.Scale(3, 4); v++ {
@@ -2346,8 +2357,8 @@ func runC12(c *lib.Ctx) {
 		fi++
 	}
 	// single random programs, five classes
-	nsingle := c.Scale(300, 2800)
-	for k := 0; k < nsingle; k++ {
+	nsingle := c.Scale(300, 1000)
+	for k := 0; k < nsingle && !onlySweep; k++ {
 		o := opts
 		o.redef = !avoidRedef && c.Rng.Chance(60)
 		cf := c12GenConfig(c.Rng, 3+c.Rng.Intn(3), o)
